@@ -107,9 +107,9 @@ theorem scopeStr_eq (p : Str) (sc : Scope) (h : scOk sc = true) :
   | path idx => simp [scopeStr, scopeIdx, scIdx]
   | pos q => simp [scOk] at h
 
-theorem name_named_eq (hc : Str → Str) {ex : Str → Bool} (d : Nat) (pkg : Option Str) (name : Str) (sc : Scope) (targs : TList)
-    (h : wfT ex (.named d pkg name sc targs) = true) :
-    nameC hc false (.named d pkg name sc targs) = llgoPrefix ++ renderKey (keyOf pkg name sc) ∧ KeyOk (keyOf pkg name sc) := by
+theorem name_named_eq (hc : Str → Str) {cfg : Cfg} {ex : Str → Bool} (d : Nat) (pkg : Option Str) (name : Str) (sc : Scope) (targs : TList)
+    (h : wfT cfg ex (.named d pkg name sc targs) = true) :
+    nameC cfg hc false (.named d pkg name sc targs) = llgoPrefix ++ renderKey (keyOf pkg name sc) ∧ KeyOk (keyOf pkg name sc) := by
   simp only [wfT, Bool.and_eq_true] at h
   obtain ⟨⟨⟨hn, ht⟩, hs⟩, hp⟩ := h
   cases targs with
@@ -187,7 +187,7 @@ theorem firstPkgM_of_pkgsEq : ∀ (a b : MList), pkgsEqM a b = true → firstPkg
     have := firstPkgM_of_pkgsEq r r' h
     simp [firstPkgM, this]
 
-theorem pkgsEqF_of_uniform {ex : Str → Bool} (q : Str) : ∀ (a b : FList), wfF ex a = true → wfF ex b = true →
+theorem pkgsEqF_of_uniform {cfg : Cfg} {ex : Str → Bool} (q : Str) : ∀ (a b : FList), wfF cfg ex a = true → wfF cfg ex b = true →
     uniformF q a = true → uniformF q b = true → identicalFN a b = true → pkgsEqF a b = true
   | .nil, .nil, _, _, _, _, _ => rfl
   | .nil, .cons _ _ _ _ _ _, _, _, _, _, h => by simp [identicalFN] at h
@@ -215,7 +215,7 @@ theorem pkgsEqF_of_uniform {ex : Str → Bool} (q : Str) : ∀ (a b : FList), wf
         have hb : b = q := by simpa using u2.1
         rw [ha, hb]
 
-theorem pkgsEqM_of_uniform {ex : Str → Bool} (q : Str) : ∀ (a b : MList), wfM ex a = true → wfM ex b = true →
+theorem pkgsEqM_of_uniform {cfg : Cfg} {ex : Str → Bool} (q : Str) : ∀ (a b : MList), wfM cfg ex a = true → wfM cfg ex b = true →
     uniformM q a = true → uniformM q b = true → identicalMN a b = true → pkgsEqM a b = true
   | .nil, .nil, _, _, _, _, _ => rfl
   | .nil, .cons _ _ _ _, _, _, _, _, h => by simp [identicalMN] at h
@@ -245,52 +245,52 @@ theorem pkgsEqM_of_uniform {ex : Str → Bool} (q : Str) : ∀ (a b : MList), wf
 
 /-! ## hypothesis bundles -/
 
-def Hyp (ex : Str → Bool) (E : List (Nat × Key)) (t : GoType) : Prop :=
-  wfT ex t = true ∧ tagsErased t = true ∧ declKeys t ⊆ E
-def HypL (ex : Str → Bool) (E : List (Nat × Key)) (l : TList) : Prop :=
-  wfL ex l = true ∧ tagsErasedL l = true ∧ declKeysL l ⊆ E
-def HypF (ex : Str → Bool) (E : List (Nat × Key)) (l : FList) : Prop :=
-  wfF ex l = true ∧ tagsErasedF l = true ∧ declKeysF l ⊆ E
-def HypM (ex : Str → Bool) (E : List (Nat × Key)) (l : MList) : Prop :=
-  wfM ex l = true ∧ tagsErasedM l = true ∧ declKeysM l ⊆ E
+def Hyp (cfg : Cfg) (ex : Str → Bool) (E : List (Nat × Key)) (t : GoType) : Prop :=
+  wfT cfg ex t = true ∧ tagsOk cfg t = true ∧ declKeys t ⊆ E
+def HypL (cfg : Cfg) (ex : Str → Bool) (E : List (Nat × Key)) (l : TList) : Prop :=
+  wfL cfg ex l = true ∧ tagsOkL cfg l = true ∧ declKeysL l ⊆ E
+def HypF (cfg : Cfg) (ex : Str → Bool) (E : List (Nat × Key)) (l : FList) : Prop :=
+  wfF cfg ex l = true ∧ tagsOkF cfg l = true ∧ declKeysF l ⊆ E
+def HypM (cfg : Cfg) (ex : Str → Bool) (E : List (Nat × Key)) (l : MList) : Prop :=
+  wfM cfg ex l = true ∧ tagsOkM cfg l = true ∧ declKeysM l ⊆ E
 
 section
-variable {ex : Str → Bool} {E : List (Nat × Key)}
+variable {cfg : Cfg} {ex : Str → Bool} {E : List (Nat × Key)}
 
-theorem hyp_pointer {e : GoType} (h : Hyp ex E (.pointer e)) : Hyp ex E e := by
-  simpa [Hyp, wfT, tagsErased, declKeys] using h
-theorem hyp_slice {e : GoType} (h : Hyp ex E (.slice e)) : Hyp ex E e := by
-  simpa [Hyp, wfT, tagsErased, declKeys] using h
-theorem hyp_array {n : Nat} {e : GoType} (h : Hyp ex E (.array n e)) : Hyp ex E e := by
-  simpa [Hyp, wfT, tagsErased, declKeys] using h
-theorem hyp_chan {d : ChanDir} {e : GoType} (h : Hyp ex E (.chan d e)) : Hyp ex E e := by
-  simpa [Hyp, wfT, tagsErased, declKeys] using h
-theorem hyp_alias {n : Str} {a : GoType} (h : Hyp ex E (.alias n a)) : Hyp ex E a := by
-  simpa [Hyp, wfT, tagsErased, declKeys] using h
-theorem hyp_map {k v : GoType} (h : Hyp ex E (.map k v)) : Hyp ex E k ∧ Hyp ex E v := by
-  simp only [Hyp, wfT, tagsErased, declKeys, Bool.and_eq_true, List.append_subset] at h
+theorem hyp_pointer {e : GoType} (h : Hyp cfg ex E (.pointer e)) : Hyp cfg ex E e := by
+  simpa [Hyp, wfT, tagsOk, declKeys] using h
+theorem hyp_slice {e : GoType} (h : Hyp cfg ex E (.slice e)) : Hyp cfg ex E e := by
+  simpa [Hyp, wfT, tagsOk, declKeys] using h
+theorem hyp_array {n : Nat} {e : GoType} (h : Hyp cfg ex E (.array n e)) : Hyp cfg ex E e := by
+  simpa [Hyp, wfT, tagsOk, declKeys] using h
+theorem hyp_chan {d : ChanDir} {e : GoType} (h : Hyp cfg ex E (.chan d e)) : Hyp cfg ex E e := by
+  simpa [Hyp, wfT, tagsOk, declKeys] using h
+theorem hyp_alias {n : Str} {a : GoType} (h : Hyp cfg ex E (.alias n a)) : Hyp cfg ex E a := by
+  simpa [Hyp, wfT, tagsOk, declKeys] using h
+theorem hyp_map {k v : GoType} (h : Hyp cfg ex E (.map k v)) : Hyp cfg ex E k ∧ Hyp cfg ex E v := by
+  simp only [Hyp, wfT, tagsOk, declKeys, Bool.and_eq_true, List.append_subset] at h
   exact ⟨⟨h.1.1, h.2.1.1, h.2.2.1⟩, ⟨h.1.2, h.2.1.2, h.2.2.2⟩⟩
-theorem hyp_func {ps rs : TList} {v : Bool} (h : Hyp ex E (.func ps rs v)) : HypL ex E ps ∧ HypL ex E rs := by
-  simp only [Hyp, wfT, tagsErased, declKeys, Bool.and_eq_true, List.append_subset] at h
+theorem hyp_func {ps rs : TList} {v : Bool} (h : Hyp cfg ex E (.func ps rs v)) : HypL cfg ex E ps ∧ HypL cfg ex E rs := by
+  simp only [Hyp, wfT, tagsOk, declKeys, Bool.and_eq_true, List.append_subset] at h
   exact ⟨⟨h.1.1, h.2.1.1, h.2.2.1⟩, ⟨h.1.2, h.2.1.2, h.2.2.2⟩⟩
-theorem hyp_struct {fs : FList} (h : Hyp ex E (.struct fs)) : HypF ex E fs ∧ uniformF (firstPkgF fs) fs = true := by
-  simp only [Hyp, wfT, tagsErased, declKeys, Bool.and_eq_true] at h
+theorem hyp_struct {fs : FList} (h : Hyp cfg ex E (.struct fs)) : HypF cfg ex E fs ∧ uniformF (firstPkgF fs) fs = true := by
+  simp only [Hyp, wfT, tagsOk, declKeys, Bool.and_eq_true] at h
   exact ⟨⟨h.1.1, h.2.1, h.2.2⟩, h.1.2⟩
-theorem hyp_iface {ms : MList} (h : Hyp ex E (.iface ms)) : HypM ex E ms ∧ uniformM (firstPkgM ms) ms = true := by
-  simp only [Hyp, wfT, tagsErased, declKeys, Bool.and_eq_true] at h
+theorem hyp_iface {ms : MList} (h : Hyp cfg ex E (.iface ms)) : HypM cfg ex E ms ∧ uniformM (firstPkgM ms) ms = true := by
+  simp only [Hyp, wfT, tagsOk, declKeys, Bool.and_eq_true] at h
   exact ⟨⟨h.1.1, h.2.1, h.2.2⟩, h.1.2⟩
-theorem hypL_cons {t : GoType} {r : TList} (h : HypL ex E (.cons t r)) : Hyp ex E t ∧ HypL ex E r := by
-  simp only [HypL, wfL, tagsErasedL, declKeysL, Bool.and_eq_true, List.append_subset] at h
+theorem hypL_cons {t : GoType} {r : TList} (h : HypL cfg ex E (.cons t r)) : Hyp cfg ex E t ∧ HypL cfg ex E r := by
+  simp only [HypL, wfL, tagsOkL, declKeysL, Bool.and_eq_true, List.append_subset] at h
   exact ⟨⟨h.1.1, h.2.1.1, h.2.2.1⟩, ⟨h.1.2, h.2.1.2, h.2.2.2⟩⟩
 
-theorem reduce_right (hc : Str → Str) (t₂ : GoType) (h2 : Hyp ex E t₂) :
-    ∃ u, (∀ n a, u ≠ .alias n a) ∧ Hyp ex E u ∧ nameC hc false t₂ = nameC hc false u ∧
+theorem reduce_right (hc : Str → Str) (t₂ : GoType) (h2 : Hyp cfg ex E t₂) :
+    ∃ u, (∀ n a, u ≠ .alias n a) ∧ Hyp cfg ex E u ∧ nameC cfg hc false t₂ = nameC cfg hc false u ∧
       (∀ t₁, identical t₁ t₂ = identical t₁ u) ∧ unalias u = u :=
   ⟨unalias t₂, unalias_ne_alias t₂,
-    ⟨by rw [wfT_unalias]; exact h2.1, by rw [tagsErased_unalias]; exact h2.2.1, by rw [declKeys_unalias]; exact h2.2.2⟩,
+    ⟨by rw [wfT_unalias]; exact h2.1, by rw [tagsOk_unalias cfg]; exact h2.2.1, by rw [declKeys_unalias]; exact h2.2.2⟩,
     nameC_unalias hc false t₂, fun t₁ => identical_unalias_r t₁ t₂, unalias_idem t₂⟩
 
-theorem nameC_pub (hc : Str → Str) : ∀ (t : GoType), wfT ex t = true → nameC hc true t = nameC hc false t
+theorem nameC_pub (hc : Str → Str) : ∀ (t : GoType), wfT cfg ex t = true → nameC cfg hc true t = nameC cfg hc false t
   | .alias _ a, h => by simp only [nameC]; exact nameC_pub hc a (by simpa [wfT] using h)
   | .struct fs, h => by
     simp only [wfT, Bool.and_eq_true] at h
@@ -400,7 +400,7 @@ end
 /-! ## the `$`-atoms: prefix and hash are recovered from the name -/
 
 section
-variable {hc : Str → Str} (hclean : ∀ x, ∀ c ∈ hc x, hashChar c = true) {ex : Str → Bool}
+variable {hc : Str → Str} (hclean : ∀ x, ∀ c ∈ hc x, hashChar c = true) {cfg : Cfg} {ex : Str → Bool}
 
 theorem suffix_eq {α} {p q a b : List α} (hl : a.length = b.length) (h : p ++ a = q ++ b) : p = q ∧ a = b :=
   List.append_inj' h hl
@@ -439,10 +439,10 @@ theorem dollar_name_inj (lit0 tail : Str) (l0 : Str) (hsplit : lit0 = l0 ++ ('_'
       have := splitFirst '$' _ _ _ _ (by have ht' : '$' ∉ tl := fun m => ht (by simp [m]); simp [hP₁, ht']) (by have ht' : '$' ∉ tl := fun m => ht (by simp [m]); simp [hP₂, ht']) h
       exact ⟨List.append_cancel_right this.1, this.2⟩
 
-theorem struct_name_inj {fs₁ fs₂ : FList} (w1 : wfF ex fs₁ = true) (w2 : wfF ex fs₂ = true)
-    (h : nameC hc false (.struct fs₁) = nameC hc false (.struct fs₂)) :
+theorem struct_name_inj {fs₁ fs₂ : FList} (w1 : wfF cfg ex fs₁ = true) (w2 : wfF cfg ex fs₂ = true)
+    (h : nameC cfg hc false (.struct fs₁) = nameC cfg hc false (.struct fs₂)) :
     firstPkgF fs₁ = firstPkgF fs₂ ∧
-      hc (litStructHdr ++ dec fs₁.length ++ '\n' :: fieldsC hc fs₁) = hc (litStructHdr ++ dec fs₂.length ++ '\n' :: fieldsC hc fs₂) := by
+      hc (litStructHdr ++ dec fs₁.length ++ '\n' :: fieldsC cfg hc fs₁) = hc (litStructHdr ++ dec fs₂.length ++ '\n' :: fieldsC cfg hc fs₂) := by
   simp only [nameC, isClosure_false fs₁ w1, isClosure_false fs₂ w2, Bool.false_and, Bool.false_eq_true, if_false] at h
   have e1 : litStruct = ['_', 'l', 'l', 'g', 'o', '_', 's', 't', 'r', 'u', 'c', 't'] ++ ['$'] := rfl
   have e2 : litStructP = ['.', 's', 't', 'r', 'u', 'c', 't'] ++ ['$'] := rfl
@@ -451,11 +451,11 @@ theorem struct_name_inj {fs₁ fs₂ : FList} (w1 : wfF ex fs₁ = true) (w2 : w
   exact dollar_name_inj _ ['.', 's', 't', 'r', 'u', 'c', 't'] ['_', 'l', 'l', 'g', 'o'] rfl rfl (by decide) (by decide)
     (pathChars_nodollar (firstPkgF_chars fs₁ w1)) (pathChars_nodollar (firstPkgF_chars fs₂ w2)) h
 
-theorem iface_name_inj {ms₁ ms₂ : MList} (w1 : wfM ex ms₁ = true) (w2 : wfM ex ms₂ = true)
+theorem iface_name_inj {ms₁ ms₂ : MList} (w1 : wfM cfg ex ms₁ = true) (w2 : wfM cfg ex ms₂ = true)
     (n1 : ms₁.isNil = false) (n2 : ms₂.isNil = false)
-    (h : nameC hc false (.iface ms₁) = nameC hc false (.iface ms₂)) :
+    (h : nameC cfg hc false (.iface ms₁) = nameC cfg hc false (.iface ms₂)) :
     firstPkgM ms₁ = firstPkgM ms₂ ∧
-      hc (litIfaceHdr ++ dec ms₁.length ++ '\n' :: methodsC hc ms₁) = hc (litIfaceHdr ++ dec ms₂.length ++ '\n' :: methodsC hc ms₂) := by
+      hc (litIfaceHdr ++ dec ms₁.length ++ '\n' :: methodsC cfg hc ms₁) = hc (litIfaceHdr ++ dec ms₂.length ++ '\n' :: methodsC cfg hc ms₂) := by
   simp only [nameC, n1, n2, Bool.false_eq_true, if_false] at h
   have e1 : litIface = ['_', 'l', 'l', 'g', 'o', '_', 'i', 'f', 'a', 'c', 'e'] ++ ['$'] := rfl
   have e2 : litIfaceP = ['.', 'i', 'f', 'a', 'c', 'e'] ++ ['$'] := rfl
@@ -482,7 +482,7 @@ end
 
 section
 variable {hc : Str → Str} (hinj : Function.Injective hc) (hclean : ∀ x, ∀ c ∈ hc x, hashChar c = true)
-  {ex : Str → Bool} {E : List (Nat × Key)} (hE : Coherent E)
+  {cfg : Cfg} {ex : Str → Bool} {E : List (Nat × Key)} (hE : Coherent E)
 
 /-- class mismatch between the two sides: neither names nor identity can agree -/
 macro "mismatch" hc1:ident hc2:ident : tactic => `(tactic|
@@ -492,11 +492,11 @@ macro "mismatch" hc1:ident hc2:ident : tactic => `(tactic|
    · simp [identical, unalias] at h))
 
 include hclean in
-theorem inj_basic (k : BasicKind) (t₂ : GoType) (h2 : Hyp ex E t₂) :
-    nameC hc false (.basic k) = nameC hc false t₂ ↔ identical (.basic k) t₂ = true := by
+theorem inj_basic (k : BasicKind) (t₂ : GoType) (h2 : Hyp cfg ex E t₂) :
+    nameC cfg hc false (.basic k) = nameC cfg hc false t₂ ↔ identical (.basic k) t₂ = true := by
   obtain ⟨u, hna, h2', hN, hI, hu⟩ := reduce_right hc t₂ h2
   rw [hN, hI]
-  have c1 := class_name hclean (ex := ex) (.basic k) rfl
+  have c1 := class_name hclean (cfg := cfg) (ex := ex) (.basic k) rfl
   have c2 := class_name hclean u h2'.1
   cases u with
   | alias n a => exact absurd rfl (hna n a)
@@ -544,8 +544,8 @@ theorem inj_basic (k : BasicKind) (t₂ : GoType) (h2 : Hyp ex E t₂) :
 
 include hclean hE in
 theorem inj_named (d : Nat) (pkg : Option Str) (name : Str) (sc : Scope) (targs : TList) (t₂ : GoType)
-    (h1 : Hyp ex E (.named d pkg name sc targs)) (h2 : Hyp ex E t₂) :
-    nameC hc false (.named d pkg name sc targs) = nameC hc false t₂ ↔ identical (.named d pkg name sc targs) t₂ = true := by
+    (h1 : Hyp cfg ex E (.named d pkg name sc targs)) (h2 : Hyp cfg ex E t₂) :
+    nameC cfg hc false (.named d pkg name sc targs) = nameC cfg hc false t₂ ↔ identical (.named d pkg name sc targs) t₂ = true := by
   obtain ⟨u, hna, h2', hN, hI, hu⟩ := reduce_right hc t₂ h2
   rw [hN, hI]
   have c1 := class_name hclean _ h1.1
@@ -580,7 +580,7 @@ theorem inj_named (d : Nat) (pkg : Option Str) (name : Str) (sc : Scope) (targs 
       simp only at this
       rw [this]
   | basic k' =>
-    have := inj_basic hclean (ex := ex) (E := E) k' (.named d pkg name sc targs) h1
+    have := inj_basic hclean (cfg := cfg) (ex := ex) (E := E) k' (.named d pkg name sc targs) h1
     constructor
     · intro h
       have := this.1 h.symm
@@ -615,25 +615,49 @@ theorem inj_named (d : Nat) (pkg : Option Str) (name : Str) (sc : Scope) (targs 
 
 
 theorem hypF_cons {n : Str} {p : Option Str} {e : Bool} {g : Str} {t : GoType} {r : FList}
-    (h : HypF ex E (.cons n p e g t r)) :
-    Hyp ex E t ∧ HypF ex E r ∧ identOk n = true ∧ g = [] ∧ (e = true → embName t = some n) := by
-  simp only [HypF, wfF, tagsErasedF, declKeysF, Bool.and_eq_true, List.append_subset, beq_iff_eq] at h
+    (h : HypF cfg ex E (.cons n p e g t r)) :
+    Hyp cfg ex E t ∧ HypF cfg ex E r ∧ identOk n = true ∧ (cfg.tags = true ∨ g = []) ∧
+      (e = true → cfg.embNames = true ∨ embName t = some n) := by
+  simp only [HypF, wfF, tagsOkF, declKeysF, Bool.and_eq_true, List.append_subset, beq_iff_eq, Bool.or_eq_true] at h
   refine ⟨⟨h.1.1.2, h.2.1.1.2, h.2.2.1⟩, ⟨h.1.2, h.2.1.2, h.2.2.2⟩, h.1.1.1.1.1.1, h.2.1.1.1, ?_⟩
   intro he
   have := h.1.1.1.2
   simpa [he] using this
 
+theorem rowStart_fields (hc : Str → Str) : ∀ (fs : FList), wfF cfg ex fs = true → RowStart (fieldsC cfg hc fs)
+  | .nil, _ => Or.inl rfl
+  | .cons n p e g t r, h => by
+    right
+    simp only [wfF, Bool.and_eq_true] at h
+    have hn := h.1.1.1.1.1
+    simp only [fieldsC]
+    cases e with
+    | true =>
+      simp only [if_true, embMark]
+      split
+      · exact ⟨'-', _, rfl, by decide⟩
+      · exact ⟨'-', _, rfl, by decide⟩
+    | false =>
+      simp only [Bool.false_eq_true, if_false]
+      cases n with
+      | nil => simp [identOk] at hn
+      | cons c cs =>
+        refine ⟨c, _, rfl, ?_⟩
+        have := (identOk_all hn).1
+        simp only [List.all_cons, Bool.and_eq_true] at this
+        intro hc'; rw [hc'] at this; exact absurd this.1 (by decide)
+
 theorem hypM_cons {n : Str} {p : Option Str} {s : GoType} {r : MList}
-    (h : HypM ex E (.cons n p s r)) : Hyp ex E s ∧ HypM ex E r ∧ identOk n = true := by
-  simp only [HypM, wfM, tagsErasedM, declKeysM, Bool.and_eq_true, List.append_subset] at h
+    (h : HypM cfg ex E (.cons n p s r)) : Hyp cfg ex E s ∧ HypM cfg ex E r ∧ identOk n = true := by
+  simp only [HypM, wfM, tagsOkM, declKeysM, Bool.and_eq_true, List.append_subset] at h
   exact ⟨⟨h.1.1.2, h.2.1.1, h.2.2.1⟩, ⟨h.1.2, h.2.1.2, h.2.2.2⟩, h.1.1.1.1.1.1⟩
 
 set_option linter.unusedSectionVars false
 include hinj hclean hE
 
 mutual
-theorem inj_T : ∀ (t₁ t₂ : GoType), Hyp ex E t₁ → Hyp ex E t₂ →
-    (nameC hc false t₁ = nameC hc false t₂ ↔ identical t₁ t₂ = true)
+theorem inj_T : ∀ (t₁ t₂ : GoType), Hyp cfg ex E t₁ → Hyp cfg ex E t₂ →
+    (nameC cfg hc false t₁ = nameC cfg hc false t₂ ↔ identical t₁ t₂ = true)
   | .basic k, t₂, _, h2 => inj_basic hclean k t₂ h2
   | .named d pkg name sc targs, t₂, h1, h2 => inj_named hclean hE d pkg name sc targs t₂ h1 h2
   | .alias n a, t₂, h1, h2 => by
@@ -788,7 +812,7 @@ theorem inj_T : ∀ (t₁ t₂ : GoType), Hyp ex E t₁ → Hyp ex E t₂ →
         have l2 := identicalL_length _ _ hrs
         have i2 := (inj_L rs rs' hr1 hr2 l2 [] []).2 ⟨hrs, rfl⟩
         simp only [List.append_nil] at i2
-        have i1 := (inj_L ps ps' hp1 hp2 l1 (tupleC hc rs) (tupleC hc rs')).2 ⟨hps, i2⟩
+        have i1 := (inj_L ps ps' hp1 hp2 l1 (tupleC cfg hc rs) (tupleC cfg hc rs')).2 ⟨hps, i2⟩
         rw [l1, l2, hv, i1]
     | basic _ => mismatch c1 c2
     | pointer _ => mismatch c1 c2
@@ -889,7 +913,7 @@ theorem inj_T : ∀ (t₁ t₂ : GoType), Hyp ex E t₁ → Hyp ex E t₂ →
           | cons _ _ _ _ => simp [MList.isNil] at hn2
           | nil => simp [identical, unalias, identicalM]
     | basic k' =>
-      have := inj_basic hclean (ex := ex) (E := E) k' (.iface ms) h1
+      have := inj_basic hclean (cfg := cfg) (ex := ex) (E := E) k' (.iface ms) h1
       constructor
       · intro h
         have := this.1 h.symm
@@ -909,8 +933,8 @@ theorem inj_T : ∀ (t₁ t₂ : GoType), Hyp ex E t₁ → Hyp ex E t₂ →
     | chan d _ => cases ms <;> cases d <;> mismatch c1 c2
     | func _ _ _ => cases ms <;> mismatch c1 c2
     | struct _ => cases ms <;> mismatch c1 c2
-theorem inj_L : ∀ (l₁ l₂ : TList), HypL ex E l₁ → HypL ex E l₂ → l₁.length = l₂.length → ∀ X Y : Str,
-    (tupleC hc l₁ ++ X = tupleC hc l₂ ++ Y ↔ (identicalL l₁ l₂ = true ∧ X = Y))
+theorem inj_L : ∀ (l₁ l₂ : TList), HypL cfg ex E l₁ → HypL cfg ex E l₂ → l₁.length = l₂.length → ∀ X Y : Str,
+    (tupleC cfg hc l₁ ++ X = tupleC cfg hc l₂ ++ Y ↔ (identicalL l₁ l₂ = true ∧ X = Y))
   | .nil, .nil, _, _, _, X, Y => by simp [tupleC, identicalL]
   | .nil, .cons _ _, _, _, hl, _, _ => by simp [TList.length] at hl
   | .cons _ _, .nil, _, _, hl, _, _ => by simp [TList.length] at hl
@@ -928,8 +952,8 @@ theorem inj_L : ∀ (l₁ l₂ : TList), HypL ex E l₁ → HypL ex E l₂ → l
       exact ⟨⟨iht.1 this.1, r.1⟩, r.2⟩
     · intro h
       rw [iht.2 h.1.1, ihr.2 ⟨h.1.2, h.2⟩]
-theorem inj_F : ∀ (f₁ f₂ : FList), HypF ex E f₁ → HypF ex E f₂ →
-    (fieldsC hc f₁ = fieldsC hc f₂ ↔ identicalFN f₁ f₂ = true)
+theorem inj_F : ∀ (f₁ f₂ : FList), HypF cfg ex E f₁ → HypF cfg ex E f₂ →
+    (fieldsC cfg hc f₁ = fieldsC cfg hc f₂ ↔ identicalFN f₁ f₂ = true)
   | .nil, .nil, _, _ => by simp [fieldsC, identicalFN]
   | .nil, .cons _ _ _ _ _ _, _, _ => by simp [fieldsC, identicalFN]
   | .cons _ _ _ _ _ _, .nil, _, _ => by simp [fieldsC, identicalFN]
@@ -938,36 +962,61 @@ theorem inj_F : ∀ (f₁ f₂ : FList), HypF ex E f₁ → HypF ex E f₂ →
     obtain ⟨ht2, hr2, hn2, hg2, he2⟩ := hypF_cons h2
     have iht := inj_T t t' ht1 ht2
     have ihr := inj_F r r' hr1 hr2
-    have nm1 : ' ' ∉ (if e = true then ['-'] else n) := by
+    have mark_sp : ∀ m : Str, identOk m = true → ' ' ∉ embMark cfg m := by
+      intro m hm
+      unfold embMark
       split
+      · have := (identOk_notin hm).2.2.1; simp [this]
       · decide
+    have nm1 : ' ' ∉ (if e = true then embMark cfg n else n) := by
+      split
+      · exact mark_sp n hn1
       · exact (identOk_notin hn1).2.2.1
-    have nm2 : ' ' ∉ (if e' = true then ['-'] else n') := by
+    have nm2 : ' ' ∉ (if e' = true then embMark cfg n' else n') := by
       split
-      · decide
+      · exact mark_sp n' hn2
       · exact (identOk_notin hn2).2.2.1
+    have mark_dash : ∀ m : Str, ∃ r, embMark cfg m = '-' :: r := by
+      intro m; unfold embMark; split
+      · exact ⟨m, rfl⟩
+      · exact ⟨[], rfl⟩
     simp only [fieldsC, identicalFN, Bool.and_eq_true, beq_iff_eq, List.append_assoc, List.cons_append]
     constructor
     · intro h
       have s1 := splitFirst ' ' _ _ _ _ nm1 nm2 h
       have s2 := splitFirst '\n' _ _ _ _ (name_inv hclean t ht1.1).1 (name_inv hclean t' ht2.1).1 s1.2
       have hid := iht.1 s2.1
-      have hrr := ihr.1 s2.2
+      have htag := tag_step cfg g g' _ _ hg1 hg2 (rowStart_fields hc r hr1.1) (rowStart_fields hc r' hr2.1) s2.2
+      have hrr := ihr.1 htag.2
       have hee : e = e' := by
-        cases e <;> cases e' <;> simp at s1 <;> try rfl
-        · have := (identOk_notin hn1).2.2.2; rw [s1.1] at this; simp at this
-        · have := (identOk_notin hn2).2.2.2; rw [← s1.1] at this; simp at this
+        cases e <;> cases e' <;> try rfl
+        · obtain ⟨r0, hr0⟩ := mark_dash n'
+          have s := s1.1
+          simp only [Bool.false_eq_true, if_false, if_true, hr0] at s
+          have := (identOk_notin hn1).2.2.2; rw [s] at this; simp at this
+        · obtain ⟨r0, hr0⟩ := mark_dash n
+          have s := s1.1
+          simp only [Bool.false_eq_true, if_false, if_true, hr0] at s
+          have := (identOk_notin hn2).2.2.2; rw [← s] at this; simp at this
       subst hee
       have hnn : n = n' := by
         cases e with
         | false => simpa using s1.1
-        | true => exact embName_identical hE t t' n n' (he1 rfl) (he2 rfl) ht1.2.2 ht2.2.2 hid
-      exact ⟨⟨⟨⟨hnn, rfl⟩, by rw [hg1, hg2]⟩, hid⟩, hrr⟩
+        | true =>
+          have s := s1.1
+          simp only [if_true, embMark] at s
+          cases hem : cfg.embNames with
+          | true => simp only [hem, if_true, List.cons.injEq, true_and] at s; exact s
+          | false =>
+            have a1 := (he1 rfl).resolve_left (by simp [hem])
+            have a2 := (he2 rfl).resolve_left (by simp [hem])
+            exact embName_identical hE t t' n n' a1 a2 ht1.2.2 ht2.2.2 hid
+      exact ⟨⟨⟨⟨hnn, rfl⟩, htag.1⟩, hid⟩, hrr⟩
     · intro h
-      obtain ⟨⟨⟨⟨hn, he⟩, _⟩, hid⟩, hrr⟩ := h
-      rw [hn, he, iht.2 hid, ihr.2 hrr]
-theorem inj_M : ∀ (m₁ m₂ : MList), HypM ex E m₁ → HypM ex E m₂ →
-    (methodsC hc m₁ = methodsC hc m₂ ↔ identicalMN m₁ m₂ = true)
+      obtain ⟨⟨⟨⟨hn, he⟩, hg⟩, hid⟩, hrr⟩ := h
+      rw [hn, he, hg, iht.2 hid, ihr.2 hrr]
+theorem inj_M : ∀ (m₁ m₂ : MList), HypM cfg ex E m₁ → HypM cfg ex E m₂ →
+    (methodsC cfg hc m₁ = methodsC cfg hc m₂ ↔ identicalMN m₁ m₂ = true)
   | .nil, .nil, _, _ => by simp [methodsC, identicalMN]
   | .nil, .cons _ _ _ _, _, _ => by simp [methodsC, identicalMN]
   | .cons _ _ _ _, .nil, _, _ => by simp [methodsC, identicalMN]
